@@ -83,6 +83,9 @@ static int cmd_integrate(const Args& a) {
                         for (auto& t : m.T) for (auto& v : t) if (v >= at) v++; } }
                 int cl = g.range(0, 4);
                 auto ct = gen::default_cell_type(3, (short)k); ct->mass_density_ = rho0 * g.logu(0.1, 10);
+                // a third of the types have a minimum volume, above or below the volume of the cell (a cell below it is integrated once more before the solver
+                // removes it; the per-node mass is density x volume / live nodes in every case)
+                if (g.coin(0.33)) ct->min_vol_ = s * s * s * g.logu(0.05, 50);
                 cell_ptr cp = gen::make_cell_of_class(cl, m, (unsigned)k, ct); cp->set_local_id((unsigned)k);
                 // a third of the cells are remeshed after their volume was last computed (the refinement phase runs before the force phase, the divider
                 // refines daughters): 1-3 edge splits change the number of live nodes, not the enclosed volume
